@@ -17,7 +17,10 @@ import (
 func init() {
 	gen.RegisterOp("c11", "wire", func(_ *gen.Ctx, raw json.RawMessage) any {
 		if c11InChild() {
-			return cc.VerifC11WireRun(gen.Into[cc.VerifC11WireSpec](raw))
+			spec := gen.Into[cc.VerifC11WireSpec](raw)
+			obs, frozen := c09Steady(5*time.Second, func() cc.VerifC11WireObs { return cc.VerifC11WireRun(spec) })
+			obs.FrozenMs = frozen
+			return obs
 		}
 		return c11ChildRun("c11", "wire", raw, 90*time.Second)
 	})
